@@ -154,7 +154,8 @@ def register(reg, stubs, world):
         found, child = lookup(eng, st, cx.old(e, 'rules'), cx.old(s, 'match'))
         KE = eng.cid('KeyError')
         if out.kind == 'ret':
-            return [('undefined-reference-denies', z3.Implies(z3.Not(found), out.value == FALSE)),
+            return [('truthiness-is-heap-independent', z3.Not(eng.is_container_obj(out.value))),
+                    ('undefined-reference-denies', z3.Implies(z3.Not(found), out.value == FALSE)),
                     ('defined-reference-is-transparent',
                      z3.Implies(found, z3.Or(
                          z3.And(EVX(child, t, c, e, cur) == 0, out.value == EV(child, t, c, e, cur)),
@@ -162,7 +163,7 @@ def register(reg, stubs, world):
         return [('propagates-only-the-definitions-exception',
                  z3.And(found, EVX(child, t, c, e, cur) == eng.cid(out.exc.cname)))]
     reg.add(Contract('_checks:RuleCheck.__call__', pre=rule_pre, post=rule_post, defs=eval_defs, axioms=ev_axioms,
-                     raises=('$OtherException',), props=('C06', 'C03'),
+                     raises=('RuntimeError', '$OtherException'), props=('C06', 'C03'),
                      assumptions=('a KeyError raised inside the referenced definition is indistinguishable from an '
                                   'undefined reference and denies (stated in the contract, outside C06\'s quantifier)',)))
 
